@@ -1,6 +1,8 @@
 #!/bin/bash
-# usage: tools/eval_incoming.sh <cXX> <PROP> : copies /tmp/seedwork/<cXX>/out (or backup) to seeded_incoming and evaluates m1, m2
-c=$1; P=$2
-mkdir -p /verif/seeded_incoming/$c
-for d in /tmp/seedwork/$c/out /tmp/seedout_$c; do if [ -f $d/m1.diff ]; then cp -r $d/* /verif/seeded_incoming/$c/; break; fi; done
-for m in m1 m2; do echo "== $P $m: $(python3 -c "import json;print(json.load(open('/verif/seeded_incoming/$c/$m.json'))['summary'][:150])")"; /verif/tools/trymutant.sh /verif/seeded_incoming/$c/$m.diff $P 2>&1 | grep -v "DRIFT\|KNOWN\|NOTE" | cut -c1-250 | head -4; done
+# usage: tools/eval_incoming.sh <incoming-dir-name> <PROP>   -- evaluates seeded_incoming/<dir>/m1.diff and m2.diff with the isolated runner
+d=/verif/seeded_incoming/$1; prop=$2
+for m in m1 m2; do
+  ( echo "== $1 $m: $(jq -r .summary $d/$m.json | cut -c1-160)"; /verif/tools/trymutant2.sh $d/$m.diff $prop 2>&1 | grep -v "^KNOWN\|^DRIFT" | head -6 ) > /tmp/inc.$1.$m.txt 2>&1 &
+done
+wait
+cat /tmp/inc.$1.m1.txt /tmp/inc.$1.m2.txt; rm -f /tmp/inc.$1.m1.txt /tmp/inc.$1.m2.txt
